@@ -28,7 +28,7 @@ MIN_NONTRIVIAL = {"quick": 150, "thorough": 1500}
 RULE = (
     "cases: (accelerator configuration, accfg program) pairs. Configurations: snax_hwpe_mult, gemmini (RoCC), snax_alu / snax_gemmx / "
     "snax_xdma / snax_phs with seeded streamer configurations (1-6 streamers, 1-6 temporal dims with n/i/r flags, 1-2 spatial dims, option and "
-    "extension subsets; in half of the non-RoCC cases the module declares the accelerator 16 / 64 addresses higher or 32 lower than the registered object would; gemmx m/n/k 1..16 (launches with per-channel quantisation attributes in 40% of the gemmx cases), PHS switch counts 0..6); the accfg.accelerator op comes from generate_acc_op() of the current tree. "
+    "extension subsets; in half of the non-RoCC cases the module declares the accelerator 16 / 64 addresses higher or 32 lower than the registered object would; gemmx m/n/k 1..16 (launches with per-channel quantisation attributes in 40% of the gemmx cases), PHS switch counts 0..24); the accfg.accelerator op comes from generate_acc_op() of the current tree. "
     "Programs: accfg-family ASTs over that accelerator's real field and launch-field names, taken after one of the stages "
     "{as written, trace-states, +dedup, +dedup+overlap}. Reference = accfg-level program on the name-indexed machine; subject = "
     "the same program after convert-accfg-to-csr on the address-indexed CSR machine (csrw/csrr/.insn interpreted), same environments "
@@ -46,6 +46,8 @@ def gen_case(rng, tier):
     prof["top_stmts"] = rng.randint(1, 4)
     prof["llvm_call"] = False
     prof["index_vals"] = rng.choice([0, 0, 0.2])
+    prof["relaunch"] = rng.choice([0, 0, 0.25])  # the same configuration launched again, also nested in a region without a setup
+    prof["prethread"] = rng.choice([0, 0, 0.5])  # hand-threaded input: setups that continue the previous setup of their block
     case = {"cfg": cfg, "stage": rng.choice([0, 1, 2, 2, 3, 3]), "prof": prof, "gseed": rng.randrange(1 << 30)}
     case["decl_shift"] = rng.choice([None, None, None, 16, 64, -32])
     if cfg["kind"] == "gemmx":
